@@ -1,7 +1,10 @@
 /-
 C03 — operator calls: in-place equals out-of-place, input untouched, malformed input rejected.
 Property theorems only, about the model of `Operator.__call__`, the signature dispatch, the
-default bridges and the expression classes in `Model/Call.lean`.
+default bridges, the expression classes and the product-space classes in `Model/Call.lean`.
+Scalars: any type `K` with `+`, `*`, `0` such that `+` and `*` commute and `0 + a = a`
+(`CommArith`): every commutative ring, and the IEEE doubles (NaN/inf included; `0 + a = a` up
+to the sign of zero).  No other law is used, so "whatever `out` contained" includes NaN/inf.
 -/
 import OdlModel.Model.Call
 import OdlModel.Lemmas.Call
@@ -13,11 +16,21 @@ open OdlModel.Prox OdlModel.Call
 
 variable {K : Type}
 
-/-- Contract of an out-of-place body `_call(x)`: returns a NEW object holding `φ(x)`, writes
-to no existing object. -/
+/-- The only arithmetic laws the theorems use. -/
+structure CommArith (K : Type) [Add K] [Mul K] [OfNat K 0] : Prop where
+  add_comm : ∀ a b : K, a + b = b + a
+  mul_comm : ∀ a b : K, a * b = b * a
+  zero_add : ∀ a : K, 0 + a = a
+
+theorem CommArith.ofCommRing (K : Type) [CommRing K] : CommArith K :=
+  ⟨fun a b => by ring, fun a b => by ring, fun a => by ring⟩
+
+/-- Contract of an out-of-place body `_call(x)`: returns an object holding `φ(x)` (a new one,
+or an existing one such as `x` itself — `RealPart` on a real space returns `x`) and writes to
+no existing object. -/
 def OopOK (l : Leaf K) : Prop :=
   ∀ (s : St K) (x : Nat), x < s.next →
-    s.next ≤ (l.oop x s).1 ∧ (l.oop x s).1 < (l.oop x s).2.next ∧
+    (l.oop x s).1 < (l.oop x s).2.next ∧ s.next ≤ (l.oop x s).2.next ∧
     (l.oop x s).2.mem (l.oop x s).1 = l.phi (s.mem x) ∧
     ∀ b : Nat, b < s.next → (l.oop x s).2.mem b = s.mem b
 
@@ -33,16 +46,20 @@ def IpOK (l : Leaf K) : Prop :=
 /-- Leaf contract: the bodies that the signature class makes reachable satisfy theirs. -/
 def LeafOK (l : Leaf K) : Prop := (l.sig ≠ .ip → OopOK l) ∧ (l.sig ≠ .oop → IpOK l)
 
+/-- Well-formed tree: leaves satisfy the contract; the operands of a sum / pointwise product
+have the same range kind (enforced by the constructors of `OperatorSum`,
+`OperatorPointwiseProduct`). -/
 def AllOK : Op K → Prop
   | .leaf l => LeafOK l
-  | .sum a b => AllOK a ∧ AllOK b
-  | .vecsum a _ => AllOK a
+  | .sum a b => AllOK a ∧ AllOK b ∧ a.fn = b.fn
+  | .vecsum a _ => AllOK a ∧ a.fn = false
   | .comp a b => AllOK a ∧ AllOK b
-  | .pwprod a b => AllOK a ∧ AllOK b
+  | .pwprod a b => AllOK a ∧ AllOK b ∧ a.fn = b.fn
   | .lscal a _ => AllOK a
   | .rscal a _ => AllOK a
   | .lvec a _ => AllOK a
   | .rvec a _ => AllOK a
+  | .flvm f _ => AllOK f
 
 /-- Specification of `op(x, out=y)`. -/
 def IPSpec [Add K] [Mul K] (e : Op K) (x y : Nat) (s : St K) (r : Res K) : Prop :=
@@ -51,197 +68,29 @@ def IPSpec [Add K] [Mul K] (e : Op K) (x y : Nat) (s : St K) (r : Res K) : Prop 
 
 /-- Specification of `op(x)`. -/
 def OOPSpec [Add K] [Mul K] (e : Op K) (x : Nat) (s : St K) (r : Res K) : Prop :=
-  ∃ (rb : Nat) (s' : St K), r = .ok rb s' ∧ s.next ≤ rb ∧ rb < s'.next ∧
+  ∃ (rb : Nat) (s' : St K), r = .ok rb s' ∧ rb < s'.next ∧ s.next ≤ s'.next ∧
     s'.mem rb = den e (s.mem x) ∧ ∀ b : Nat, b < s.next → s'.mem b = s.mem b
 
 /-- A leaf whose out-of-place body returns its argument itself (what `RealPart._call` does on
-a real space: `return x.real`, and `x.real is x`). -/
+a real space: `return x.real`, and `x.real is x`). It satisfies the leaf contract. -/
 def retInputLeaf {K : Type} : Leaf K :=
-  { sig := .oop, raw := false, phi := id, oop := fun x s => (x, s),
+  { sig := .oop, fn := false, raw := false, phi := id, oop := fun x s => (x, s),
     ip := fun _ _ s => (.none, s) }
 
-/-- `InnerProductOperator`-like out-of-place-only leaf (`_call(x)` returning a new object). -/
+/-- Out-of-place-only leaf returning a raw array (wrapped by `__call__`). -/
 def oopLeaf {K : Type} (f : Vec K → Vec K) : Leaf K :=
-  { sig := .oop, raw := true, phi := f,
+  { sig := .oop, fn := false, raw := true, phi := f,
     oop := fun x s => alloc s (f (s.mem x)), ip := fun _ _ s => (.other, s) }
-
-/-- Scalars with a NaN (`none`), absorbing for `+` and `*` like IEEE NaN. -/
-abbrev NInt := Option Int
-instance : Add NInt := ⟨fun a b => a.bind fun x => b.bind fun y => some (x + y)⟩
-instance : Sub NInt := ⟨fun a b => a.bind fun x => b.bind fun y => some (x - y)⟩
-instance : Mul NInt := ⟨fun a b => a.bind fun x => b.bind fun y => some (x * y)⟩
-instance : Div NInt := ⟨fun a b => a.bind fun x => b.bind fun y => some (x / y)⟩
-instance : Neg NInt := ⟨fun a => a.map fun x => -x⟩
-instance : OfNat NInt 0 := ⟨some 0⟩
-instance : OfNat NInt 1 := ⟨some 1⟩
-
-def nanFns : Fns NInt where
-  abs := id
-  sign := id
-  sqrt := id
-  square := id
-  exp := id
-  lambertw := id
-  max := fun a _ => a
-  min := fun a _ => a
-  pow := id
-  lt := fun a b => match a, b with | some x, some y => x < y | _, _ => false
-  le := fun a b => match a, b with | some x, some y => x ≤ y | _, _ => false
-  truthy := fun a => a ≠ some 0
-  ofBool := fun b => if b then some 1 else some 0
-  inf := some 1000000
-  half := some 0
-  two := some 2
-  four := some 4
-  norm := fun v => v 0
-  sum := fun v => v 0
-  invSize := some 1
-  pwnorm := id
-  pdiv := fun a _ => a
-  simplex := fun _ v => v
-
-def nanPar : Par NInt :=
-  { lam := some 1, sigma := some 1, gamma := some 1, radius := some 1, eps := some 0,
-    a := some 1, b := some 1 }
 
 end OdlModel.C03
 
 open OdlModel.Prox OdlModel.Call OdlModel.Call.Lemmas OdlModel.C03
 
-
-theorem C03.call_in_place {K : Type} [CommRing K] (jk : Nat → Vec K) (e : Op K) (h : AllOK e) :
-    ∀ (s : St K) (x y : Nat), x < s.next → y < s.next → IPSpec e x y s (callI jk e x y s) := by
-  induction e with
-  | leaf l =>
-    intro s x y hx hy
-    obtain ⟨ho, hi⟩ := h
-    unfold callI
-    cases hsig : l.sig
-    · -- out-of-place only: default bridge out.assign(range.element(_call(x)))
-      obtain ⟨h1, h2, h3, h4⟩ := ho (by simp [hsig]) s x hx
-      refine ⟨_, rfl, ?_, ?_, ?_⟩
-      · simp [h3, den]
-      · intro b hb hne; rw [write_mem_other _ _ _ _ hne, h4 b hb]
-      · change s.next ≤ (l.oop x s).2.next; omega
-    · obtain ⟨h1, h2, h3, h4⟩ := hi (by simp [hsig]) s x y hx hy
-      simp only
-      cases hret : (l.ip x y s).1 <;> simp_all [IPSpec, den]
-    · obtain ⟨h1, h2, h3, h4⟩ := hi (by simp [hsig]) s x y hx hy
-      simp only
-      cases hret : (l.ip x y s).1 <;> simp_all [IPSpec, den]
-  | sum a b iha ihb =>
-    intro s x y hx hy
-    obtain ⟨ha, hb⟩ := h
-    obtain ⟨s0, ea, hn0, hv0, hf0⟩ := alloc_spec s (jk s.next)
-    simp only [callI, ea]
-    obtain ⟨s1, e1, v1, f1, n1⟩ := iha ha s0 x s.next (by omega) (by omega)
-    rw [e1, bind_ok]
-    obtain ⟨s2, e2, v2, f2, n2⟩ := ihb hb s1 x y (by omega) (by omega)
-    rw [e2, bind_ok]
-    have hxs : x ≠ s.next := by omega
-    have hys : y ≠ s.next := by omega
-    have m1x : s1.mem x = s.mem x := by rw [f1 x (by omega) hxs, hf0 x hxs]
-    refine ⟨_, rfl, ?_, ?_, ?_⟩
-    · funext i
-      have : s2.mem s.next = s1.mem s.next := f2 _ (by omega) (by omega)
-      simp [v2, this, v1, m1x, den, hf0 x hxs]; ring
-    · intro b hb hne
-      have hbs : b ≠ s.next := by omega
-      rw [write_mem_other _ _ _ _ hne, f2 b (by omega) hne, f1 b (by omega) hbs, hf0 b hbs]
-    · simp only [write_next]; omega
-  | vecsum a v iha =>
-    intro s x y hx hy
-    simp only [callI]
-    obtain ⟨s1, e1, v1, f1, n1⟩ := iha h s x y hx hy
-    rw [e1, bind_ok]
-    refine ⟨_, rfl, ?_, ?_, ?_⟩
-    · simp [v1, den]
-    · intro b hb hne; rw [write_mem_other _ _ _ _ hne, f1 b hb hne]
-    · simp only [write_next]; omega
-  | comp a b iha ihb =>
-    intro s x y hx hy
-    obtain ⟨ha, hb⟩ := h
-    obtain ⟨s0, ea, hn0, hv0, hf0⟩ := alloc_spec s (jk s.next)
-    simp only [callI, ea]
-    have hxs : x ≠ s.next := by omega
-    have hys : y ≠ s.next := by omega
-    obtain ⟨s1, e1, v1, f1, n1⟩ := ihb hb s0 x s.next (by omega) (by omega)
-    rw [e1, bind_ok]
-    obtain ⟨s2, e2, v2, f2, n2⟩ := iha ha s1 s.next y (by omega) (by omega)
-    refine ⟨s2, e2, ?_, ?_, ?_⟩
-    · rw [v2, v1, hf0 x hxs]; rfl
-    · intro b hb hne
-      have hbs : b ≠ s.next := by omega
-      rw [f2 b (by omega) hne, f1 b (by omega) hbs, hf0 b hbs]
-    · omega
-  | pwprod a b iha ihb =>
-    intro s x y hx hy
-    obtain ⟨ha, hb⟩ := h
-    obtain ⟨s0, ea, hn0, hv0, hf0⟩ := alloc_spec s (jk s.next)
-    simp only [callI, ea]
-    obtain ⟨s1, e1, v1, f1, n1⟩ := iha ha s0 x s.next (by omega) (by omega)
-    rw [e1, bind_ok]
-    obtain ⟨s2, e2, v2, f2, n2⟩ := ihb hb s1 x y (by omega) (by omega)
-    rw [e2, bind_ok]
-    have hxs : x ≠ s.next := by omega
-    have hys : y ≠ s.next := by omega
-    have m1x : s1.mem x = s.mem x := by rw [f1 x (by omega) hxs, hf0 x hxs]
-    refine ⟨_, rfl, ?_, ?_, ?_⟩
-    · funext i
-      have : s2.mem s.next = s1.mem s.next := f2 _ (by omega) (by omega)
-      simp [v2, this, v1, m1x, den, hf0 x hxs]; ring
-    · intro b hb hne
-      have hbs : b ≠ s.next := by omega
-      rw [write_mem_other _ _ _ _ hne, f2 b (by omega) hne, f1 b (by omega) hbs, hf0 b hbs]
-    · simp only [write_next]; omega
-  | lscal a c iha =>
-    intro s x y hx hy
-    simp only [callI]
-    obtain ⟨s1, e1, v1, f1, n1⟩ := iha h s x y hx hy
-    rw [e1, bind_ok]
-    refine ⟨_, rfl, ?_, ?_, ?_⟩
-    · funext i; simp [v1, den]; ring
-    · intro b hb hne; rw [write_mem_other _ _ _ _ hne, f1 b hb hne]
-    · simp only [write_next]; omega
-  | rscal a c iha =>
-    intro s x y hx hy
-    obtain ⟨s0, ea, hn0, hv0, hf0⟩ := alloc_spec s (jk s.next)
-    simp only [callI, ea]
-    have hxs : x ≠ s.next := by omega
-    have hys : y ≠ s.next := by omega
-    obtain ⟨s2, e2, v2, f2, n2⟩ := iha h (s0.write s.next (fun i => c * s0.mem x i)) s.next y
-      (by simp only [write_next]; omega) (by simp only [write_next]; omega)
-    refine ⟨s2, e2, ?_, ?_, ?_⟩
-    · rw [v2, write_mem_same, hf0 x hxs]; rfl
-    · intro b hb hne
-      have hbs : b ≠ s.next := by omega
-      rw [f2 b (by simp only [write_next]; omega) hne, write_mem_other _ _ _ _ hbs, hf0 b hbs]
-    · simp only [write_next] at n2; omega
-  | lvec a v iha =>
-    intro s x y hx hy
-    simp only [callI]
-    obtain ⟨s1, e1, v1, f1, n1⟩ := iha h s x y hx hy
-    rw [e1, bind_ok]
-    refine ⟨_, rfl, ?_, ?_, ?_⟩
-    · simp [v1, den]
-    · intro b hb hne; rw [write_mem_other _ _ _ _ hne, f1 b hb hne]
-    · simp only [write_next]; omega
-  | rvec a v iha =>
-    intro s x y hx hy
-    obtain ⟨s0, ea, hn0, hv0, hf0⟩ := alloc_spec s (jk s.next)
-    simp only [callI, ea]
-    have hxs : x ≠ s.next := by omega
-    have hys : y ≠ s.next := by omega
-    obtain ⟨s2, e2, v2, f2, n2⟩ := iha h (s0.write s.next (fun i => s0.mem x i * v i)) s.next y
-      (by simp only [write_next]; omega) (by simp only [write_next]; omega)
-    refine ⟨s2, e2, ?_, ?_, ?_⟩
-    · rw [v2, write_mem_same, hf0 x hxs]; rfl
-    · intro b hb hne
-      have hbs : b ≠ s.next := by omega
-      rw [f2 b (by simp only [write_next]; omega) hne, write_mem_other _ _ _ _ hbs, hf0 b hbs]
-    · simp only [write_next] at n2; omega
-
-theorem C03.call_out_of_place {K : Type} [CommRing K] (jk : Nat → Vec K) (e : Op K)
+/-- Out-of-place call, for EVERY well-formed expression tree (unbounded depth), every store,
+every `x`, every junk in the temporaries: `op(x)` returns an object holding `⟦e⟧(x)` and writes
+to NO existing object (so `x` is bit-for-bit unchanged). Covers `_default_call_out_of_place`
+for in-place-only leaves and the `range.element` wrapping of raw results. -/
+theorem C03.call_out_of_place {K : Type} [Add K] [Mul K] (jk : Nat → Vec K) (e : Op K)
     (h : AllOK e) :
     ∀ (s : St K) (x : Nat), x < s.next → OOPSpec e x s (callO jk e x s) := by
   induction e with
@@ -264,11 +113,11 @@ theorem C03.call_out_of_place {K : Type} [CommRing K] (jk : Nat → Vec K) (e : 
       obtain ⟨h1, h2, h3, h4⟩ := hi (by simp [hsig]) s0 x s.next (by omega) (by omega)
       simp only [ea]
       cases hret : (l.ip x s.next s0).1
-      · refine ⟨_, _, rfl, le_refl _, by change s.next < (l.ip x s.next s0).2.next; omega,
-          by rw [h2, hf0 x hxs]; rfl, ?_⟩
+      · refine ⟨_, _, rfl, by change s.next < (l.ip x s.next s0).2.next; omega,
+          by change s.next ≤ (l.ip x s.next s0).2.next; omega, by rw [h2, hf0 x hxs]; rfl, ?_⟩
         intro b hb; rw [h3 b (by omega) (by omega), hf0 b (by omega)]
-      · refine ⟨_, _, rfl, le_refl _, by change s.next < (l.ip x s.next s0).2.next; omega,
-          by rw [h2, hf0 x hxs]; rfl, ?_⟩
+      · refine ⟨_, _, rfl, by change s.next < (l.ip x s.next s0).2.next; omega,
+          by change s.next ≤ (l.ip x s.next s0).2.next; omega, by rw [h2, hf0 x hxs]; rfl, ?_⟩
         intro b hb; rw [h3 b (by omega) (by omega), hf0 b (by omega)]
       · exact absurd hret h1
     · obtain ⟨h1, h2, h3, h4⟩ := ho (by simp [hsig]) s x hx
@@ -281,53 +130,54 @@ theorem C03.call_out_of_place {K : Type} [CommRing K] (jk : Nat → Vec K) (e : 
         intro b hb; rw [hf0 b (by omega), h4 b hb]
   | sum a b iha ihb =>
     intro s x hx
-    obtain ⟨ha, hb⟩ := h
+    obtain ⟨ha, hb, _⟩ := h
     simp only [callO]
-    obtain ⟨ra, s1, e1, l1, u1, v1, f1⟩ := iha ha s x hx
+    obtain ⟨ra, s1, e1, u1, n1, v1, f1⟩ := iha ha s x hx
     rw [e1, bind_ok]
-    obtain ⟨rb, s2, e2, l2, u2, v2, f2⟩ := ihb hb s1 x (by omega)
+    obtain ⟨rb, s2, e2, u2, n2, v2, f2⟩ := ihb hb s1 x (by omega)
     rw [e2, bind_ok]
     obtain ⟨s3, ea, hn3, hv3, hf3⟩ := alloc_spec s2 (fun i => s2.mem ra i + s2.mem rb i)
     simp only [ea]
     refine ⟨_, _, rfl, by omega, by omega, ?_, ?_⟩
     · rw [hv3]; funext i
-      rw [f2 ra (by omega), v1, v2, f1 x hx]; rfl
+      rw [f2 ra u1, v1, v2, f1 x hx]; rfl
     · intro b hb'; rw [hf3 b (by omega), f2 b (by omega), f1 b hb']
   | vecsum a v iha =>
     intro s x hx
     simp only [callO]
-    obtain ⟨r, s1, e1, l1, u1, v1, f1⟩ := iha h s x hx
+    obtain ⟨r, s1, e1, u1, n1, v1, f1⟩ := iha h.1 s x hx
     rw [e1, bind_ok]
-    refine ⟨_, _, rfl, l1, by simp only [write_next]; omega, ?_, ?_⟩
-    · simp [v1, den]
-    · intro b hb'; rw [write_mem_other _ _ _ _ (by omega), f1 b hb']
+    obtain ⟨s2, ea, hn2, hv2, hf2⟩ := alloc_spec s1 (fun i => s1.mem r i + v i)
+    simp only [ea]
+    refine ⟨_, _, rfl, by omega, by omega, by rw [hv2, v1]; rfl, ?_⟩
+    intro b hb'; rw [hf2 b (by omega), f1 b hb']
   | comp a b iha ihb =>
     intro s x hx
     obtain ⟨ha, hb⟩ := h
     simp only [callO]
-    obtain ⟨rb, s1, e1, l1, u1, v1, f1⟩ := ihb hb s x hx
+    obtain ⟨rb, s1, e1, u1, n1, v1, f1⟩ := ihb hb s x hx
     rw [e1, bind_ok]
-    obtain ⟨r, s2, e2, l2, u2, v2, f2⟩ := iha ha s1 rb u1
-    refine ⟨r, s2, e2, by omega, u2, by rw [v2, v1]; rfl, ?_⟩
+    obtain ⟨r, s2, e2, u2, n2, v2, f2⟩ := iha ha s1 rb u1
+    refine ⟨r, s2, e2, u2, by omega, by rw [v2, v1]; rfl, ?_⟩
     intro b hb'; rw [f2 b (by omega), f1 b hb']
   | pwprod a b iha ihb =>
     intro s x hx
-    obtain ⟨ha, hb⟩ := h
+    obtain ⟨ha, hb, _⟩ := h
     simp only [callO]
-    obtain ⟨ra, s1, e1, l1, u1, v1, f1⟩ := iha ha s x hx
+    obtain ⟨ra, s1, e1, u1, n1, v1, f1⟩ := iha ha s x hx
     rw [e1, bind_ok]
-    obtain ⟨rb, s2, e2, l2, u2, v2, f2⟩ := ihb hb s1 x (by omega)
+    obtain ⟨rb, s2, e2, u2, n2, v2, f2⟩ := ihb hb s1 x (by omega)
     rw [e2, bind_ok]
     obtain ⟨s3, ea, hn3, hv3, hf3⟩ := alloc_spec s2 (fun i => s2.mem ra i * s2.mem rb i)
     simp only [ea]
     refine ⟨_, _, rfl, by omega, by omega, ?_, ?_⟩
     · rw [hv3]; funext i
-      rw [f2 ra (by omega), v1, v2, f1 x hx]; rfl
+      rw [f2 ra u1, v1, v2, f1 x hx]; rfl
     · intro b hb'; rw [hf3 b (by omega), f2 b (by omega), f1 b hb']
   | lscal a c iha =>
     intro s x hx
     simp only [callO]
-    obtain ⟨r, s1, e1, l1, u1, v1, f1⟩ := iha h s x hx
+    obtain ⟨r, s1, e1, u1, n1, v1, f1⟩ := iha h s x hx
     rw [e1, bind_ok]
     obtain ⟨s2, ea, hn2, hv2, hf2⟩ := alloc_spec s1 (fun i => c * s1.mem r i)
     simp only [ea]
@@ -337,13 +187,13 @@ theorem C03.call_out_of_place {K : Type} [CommRing K] (jk : Nat → Vec K) (e : 
     intro s x hx
     obtain ⟨s0, ea, hn0, hv0, hf0⟩ := alloc_spec s (fun i => c * s.mem x i)
     simp only [callO, ea]
-    obtain ⟨r, s2, e2, l2, u2, v2, f2⟩ := iha h s0 s.next (by omega)
-    refine ⟨r, s2, e2, by omega, u2, by rw [v2, hv0]; rfl, ?_⟩
+    obtain ⟨r, s2, e2, u2, n2, v2, f2⟩ := iha h s0 s.next (by omega)
+    refine ⟨r, s2, e2, u2, by omega, by rw [v2, hv0]; rfl, ?_⟩
     intro b hb'; rw [f2 b (by omega), hf0 b (by omega)]
   | lvec a v iha =>
     intro s x hx
     simp only [callO]
-    obtain ⟨r, s1, e1, l1, u1, v1, f1⟩ := iha h s x hx
+    obtain ⟨r, s1, e1, u1, n1, v1, f1⟩ := iha h s x hx
     rw [e1, bind_ok]
     obtain ⟨s2, ea, hn2, hv2, hf2⟩ := alloc_spec s1 (fun i => s1.mem r i * v i)
     simp only [ea]
@@ -353,67 +203,245 @@ theorem C03.call_out_of_place {K : Type} [CommRing K] (jk : Nat → Vec K) (e : 
     intro s x hx
     obtain ⟨s0, ea, hn0, hv0, hf0⟩ := alloc_spec s (fun i => s.mem x i * v i)
     simp only [callO, ea]
-    obtain ⟨r, s2, e2, l2, u2, v2, f2⟩ := iha h s0 s.next (by omega)
-    refine ⟨r, s2, e2, by omega, u2, by rw [v2, hv0]; rfl, ?_⟩
+    obtain ⟨r, s2, e2, u2, n2, v2, f2⟩ := iha h s0 s.next (by omega)
+    refine ⟨r, s2, e2, u2, by omega, by rw [v2, hv0]; rfl, ?_⟩
     intro b hb'; rw [f2 b (by omega), hf0 b (by omega)]
+  | flvm f v ihf =>
+    intro s x hx
+    simp only [callO]
+    obtain ⟨r, s1, e1, u1, n1, v1, f1⟩ := ihf h s x hx
+    rw [e1, bind_ok]
+    obtain ⟨s2, ea, hn2, hv2, hf2⟩ := alloc_spec s1 (fun i => v i * s1.mem r 0)
+    simp only [ea]
+    refine ⟨_, _, rfl, by omega, by omega, by rw [hv2, v1]; rfl, ?_⟩
+    intro b hb'; rw [hf2 b (by omega), f1 b hb']
 
-/-- The public call `Operator.__call__` on well-formed arguments (partial: see below).
-For every expression tree over leaves satisfying the leaf contract, every store `s`, every
-domain element `x` and range element `y` of that store (whatever `y` holds, NaN-free scalars):
-* `op(x)` returns a NEW object holding `⟦e⟧(x)` and writes to no existing object (so `x` is
+/-- In-place call, for EVERY well-formed expression tree (unbounded depth) that is not a
+functional, every store, every `x` and `y` (`y` may hold arbitrary junk — NaN/inf included —
+and may even BE `x`), every junk in the temporaries: the call returns the very object `y`; `y`
+then holds `⟦e⟧(x)` (of the pre-state `x`); no other existing object — in particular `x` when
+`x ≠ y` — is written. -/
+theorem C03.call_in_place {K : Type} [Add K] [Mul K] [OfNat K 0] (hK : CommArith K)
+    (jk : Nat → Vec K) (e : Op K) (h : AllOK e) (hfn : e.fn = false) :
+    ∀ (s : St K) (x y : Nat), x < s.next → y < s.next → IPSpec e x y s (callI jk e x y s) := by
+  induction e with
+  | leaf l =>
+    intro s x y hx hy
+    obtain ⟨ho, hi⟩ := h
+    have hl : l.fn = false := hfn
+    unfold callI
+    simp only [hl]
+    cases hsig : l.sig
+    · -- out-of-place only: default bridge out.assign(range.element(_call(x)))
+      obtain ⟨h1, h2, h3, h4⟩ := ho (by simp [hsig]) s x hx
+      refine ⟨_, rfl, ?_, ?_, ?_⟩
+      · simp [h3, den]
+      · intro b hb hne; rw [write_mem_other _ _ _ _ hne, h4 b hb]
+      · change s.next ≤ (l.oop x s).2.next; omega
+    · obtain ⟨h1, h2, h3, h4⟩ := hi (by simp [hsig]) s x y hx hy
+      simp only
+      cases hret : (l.ip x y s).1 <;> simp_all [IPSpec, den]
+    · obtain ⟨h1, h2, h3, h4⟩ := hi (by simp [hsig]) s x y hx hy
+      simp only
+      cases hret : (l.ip x y s).1 <;> simp_all [IPSpec, den]
+  | sum a b iha ihb =>
+    intro s x y hx hy
+    obtain ⟨ha, hb, hab⟩ := h
+    have hfa : a.fn = false := hfn
+    obtain ⟨s0, ea, hn0, hv0, hf0⟩ := alloc_spec s (jk s.next)
+    simp only [callI, ea]
+    obtain ⟨s1, e1, v1, f1, n1⟩ := iha ha hfa s0 x s.next (by omega) (by omega)
+    rw [e1, bind_ok]
+    obtain ⟨s2, e2, v2, f2, n2⟩ := ihb hb (by rw [← hab]; exact hfa) s1 x y (by omega) (by omega)
+    rw [e2, bind_ok]
+    have hxs : x ≠ s.next := by omega
+    have hys : y ≠ s.next := by omega
+    have m1x : s1.mem x = s.mem x := by rw [f1 x (by omega) hxs, hf0 x hxs]
+    refine ⟨_, rfl, ?_, ?_, ?_⟩
+    · funext i
+      have : s2.mem s.next = s1.mem s.next := f2 _ (by omega) (by omega)
+      simp only [write_mem_same, v2, this, v1, m1x, den, hf0 x hxs]
+      exact hK.add_comm _ _
+    · intro b hb hne
+      have hbs : b ≠ s.next := by omega
+      rw [write_mem_other _ _ _ _ hne, f2 b (by omega) hne, f1 b (by omega) hbs, hf0 b hbs]
+    · simp only [write_next]; omega
+  | vecsum a v iha =>
+    intro s x y hx hy
+    simp only [callI]
+    obtain ⟨s1, e1, v1, f1, n1⟩ := iha h.1 h.2 s x y hx hy
+    rw [e1, bind_ok]
+    refine ⟨_, rfl, ?_, ?_, ?_⟩
+    · simp [v1, den]
+    · intro b hb hne; rw [write_mem_other _ _ _ _ hne, f1 b hb hne]
+    · simp only [write_next]; omega
+  | comp a b iha ihb =>
+    intro s x y hx hy
+    obtain ⟨ha, hb⟩ := h
+    have hfa : a.fn = false := hfn
+    simp only [callI]
+    cases hbf : b.fn
+    · -- the right factor is an operator: temporary for its result
+      obtain ⟨s0, ea, hn0, hv0, hf0⟩ := alloc_spec s (jk s.next)
+      simp only [ea, Bool.false_eq_true, if_false]
+      have hxs : x ≠ s.next := by omega
+      have hys : y ≠ s.next := by omega
+      obtain ⟨s1, e1, v1, f1, n1⟩ := ihb hb hbf s0 x s.next (by omega) (by omega)
+      rw [e1, bind_ok]
+      obtain ⟨s2, e2, v2, f2, n2⟩ := iha ha hfa s1 s.next y (by omega) (by omega)
+      refine ⟨s2, e2, ?_, ?_, ?_⟩
+      · rw [v2, v1, hf0 x hxs]; rfl
+      · intro b hb hne
+        have hbs : b ≠ s.next := by omega
+        rw [f2 b (by omega) hne, f1 b (by omega) hbs, hf0 b hbs]
+      · omega
+    · -- the right factor is a functional: its scalar is computed out-of-place
+      simp only [if_true]
+      obtain ⟨rb, s1, e1, u1, n1, v1, f1⟩ := C03.call_out_of_place jk b hb s x hx
+      rw [e1, bind_ok]
+      obtain ⟨s2, e2, v2, f2, n2⟩ := iha ha hfa s1 rb y u1 (by omega)
+      refine ⟨s2, e2, by rw [v2, v1]; rfl, ?_, by omega⟩
+      intro b' hb' hne; rw [f2 b' (by omega) hne, f1 b' hb']
+  | pwprod a b iha ihb =>
+    intro s x y hx hy
+    obtain ⟨ha, hb, hab⟩ := h
+    have hfa : a.fn = false := hfn
+    obtain ⟨s0, ea, hn0, hv0, hf0⟩ := alloc_spec s (jk s.next)
+    simp only [callI, ea]
+    obtain ⟨s1, e1, v1, f1, n1⟩ := iha ha hfa s0 x s.next (by omega) (by omega)
+    rw [e1, bind_ok]
+    obtain ⟨s2, e2, v2, f2, n2⟩ := ihb hb (by rw [← hab]; exact hfa) s1 x y (by omega) (by omega)
+    rw [e2, bind_ok]
+    have hxs : x ≠ s.next := by omega
+    have hys : y ≠ s.next := by omega
+    have m1x : s1.mem x = s.mem x := by rw [f1 x (by omega) hxs, hf0 x hxs]
+    refine ⟨_, rfl, ?_, ?_, ?_⟩
+    · funext i
+      have : s2.mem s.next = s1.mem s.next := f2 _ (by omega) (by omega)
+      simp only [write_mem_same, v2, this, v1, m1x, den, hf0 x hxs]
+      exact hK.mul_comm _ _
+    · intro b hb hne
+      have hbs : b ≠ s.next := by omega
+      rw [write_mem_other _ _ _ _ hne, f2 b (by omega) hne, f1 b (by omega) hbs, hf0 b hbs]
+    · simp only [write_next]; omega
+  | lscal a c iha =>
+    intro s x y hx hy
+    simp only [callI]
+    obtain ⟨s1, e1, v1, f1, n1⟩ := iha h hfn s x y hx hy
+    rw [e1, bind_ok]
+    refine ⟨_, rfl, ?_, ?_, ?_⟩
+    · funext i; simp only [write_mem_same, v1, den]; exact hK.mul_comm _ _
+    · intro b hb hne; rw [write_mem_other _ _ _ _ hne, f1 b hb hne]
+    · simp only [write_next]; omega
+  | rscal a c iha =>
+    intro s x y hx hy
+    obtain ⟨s0, ea, hn0, hv0, hf0⟩ := alloc_spec s (jk s.next)
+    simp only [callI, ea]
+    have hxs : x ≠ s.next := by omega
+    have hys : y ≠ s.next := by omega
+    obtain ⟨s2, e2, v2, f2, n2⟩ := iha h hfn (s0.write s.next (fun i => c * s0.mem x i)) s.next y
+      (by simp only [write_next]; omega) (by simp only [write_next]; omega)
+    refine ⟨s2, e2, ?_, ?_, ?_⟩
+    · rw [v2, write_mem_same, hf0 x hxs]; rfl
+    · intro b hb hne
+      have hbs : b ≠ s.next := by omega
+      rw [f2 b (by simp only [write_next]; omega) hne, write_mem_other _ _ _ _ hbs, hf0 b hbs]
+    · simp only [write_next] at n2; omega
+  | lvec a v iha =>
+    intro s x y hx hy
+    simp only [callI]
+    obtain ⟨s1, e1, v1, f1, n1⟩ := iha h hfn s x y hx hy
+    rw [e1, bind_ok]
+    refine ⟨_, rfl, ?_, ?_, ?_⟩
+    · simp [v1, den]
+    · intro b hb hne; rw [write_mem_other _ _ _ _ hne, f1 b hb hne]
+    · simp only [write_next]; omega
+  | rvec a v iha =>
+    intro s x y hx hy
+    obtain ⟨s0, ea, hn0, hv0, hf0⟩ := alloc_spec s (jk s.next)
+    simp only [callI, ea]
+    have hxs : x ≠ s.next := by omega
+    have hys : y ≠ s.next := by omega
+    obtain ⟨s2, e2, v2, f2, n2⟩ := iha h hfn (s0.write s.next (fun i => s0.mem x i * v i)) s.next y
+      (by simp only [write_next]; omega) (by simp only [write_next]; omega)
+    refine ⟨s2, e2, ?_, ?_, ?_⟩
+    · rw [v2, write_mem_same, hf0 x hxs]; rfl
+    · intro b hb hne
+      have hbs : b ≠ s.next := by omega
+      rw [f2 b (by simp only [write_next]; omega) hne, write_mem_other _ _ _ _ hbs, hf0 b hbs]
+    · simp only [write_next] at n2; omega
+  | flvm f v _ =>
+    intro s x y hx hy
+    simp only [callI]
+    obtain ⟨r, s1, e1, u1, n1, v1, f1⟩ := C03.call_out_of_place jk f h s x hx
+    rw [e1, bind_ok]
+    refine ⟨_, rfl, ?_, ?_, ?_⟩
+    · funext i; simp only [write_mem_same, v1, den]; exact hK.mul_comm _ _
+    · intro b hb hne; rw [write_mem_other _ _ _ _ hne, f1 b hb]
+    · simp only [write_next]; omega
+
+/-- The public call `Operator.__call__` on well-formed arguments — the property itself.
+For every well-formed expression tree that is not a functional, every store `s`, every domain
+element `x` and range element `y` of that store (whatever `y` holds, NaN/inf included):
+* `op(x)` returns an object holding `⟦e⟧(x)` and writes to no existing object (so `x` is
   bit-for-bit unchanged);
 * `op(x, out=y)` returns the very object `y`, which then holds the same `⟦e⟧(x)`; no other
-  existing object is written, in particular `x` when `x` is not `y`.
-
-PARTIAL with respect to the property as stated for the library, in two respects, both
-witnessed on the real code and recorded in known_findings.json:
-(1) the leaf contract demands a *fresh* out-of-place result; `RealPart` on a real space
-    returns `x` itself, and `OperatorVectorSum` then adds its vector INTO `x`
-    (`C03.vector_sum_writes_input`);
-(2) `K` is a commutative ring, i.e. the junk in `y` is finite: `out.set_zero()` is coded as
-    `lincomb(0, out, 0, out)` and keeps NaN/inf (`C03.set_zero_keeps_nan`).
-Full statement (false for the current code): the same with `LeafOK` weakened to allow
-`oop` to return its argument, and with `K` the IEEE doubles including NaN/inf junk. -/
-theorem C03.call_protocol_partial {K : Type} [CommRing K] (jk jk' : Nat → Vec K) (e : Op K)
-    (h : AllOK e) (s : St K) (x y : Nat) (hx : x < s.next) (hy : y < s.next) :
-    (∃ r s1, call jk false e (.inDomain x) .none s = .ok r s1 ∧ s.next ≤ r ∧
+  existing object is written, in particular `x` when `x` is not `y`. -/
+theorem C03.call_protocol {K : Type} [Add K] [Mul K] [OfNat K 0] (hK : CommArith K)
+    (jk jk' : Nat → Vec K) (e : Op K) (h : AllOK e) (hfn : e.fn = false)
+    (s : St K) (x y : Nat) (hx : x < s.next) (hy : y < s.next) :
+    (∃ r s1, call jk e (.inDomain x) .none s = .ok r s1 ∧
         s1.mem r = den e (s.mem x) ∧ ∀ b : Nat, b < s.next → s1.mem b = s.mem b) ∧
-    (∃ s2, call jk' false e (.inDomain x) (.inRange y) s = .ok y s2 ∧
+    (∃ s2, call jk' e (.inDomain x) (.inRange y) s = .ok y s2 ∧
         s2.mem y = den e (s.mem x) ∧ (x ≠ y → s2.mem x = s.mem x) ∧
         ∀ b : Nat, b < s.next → b ≠ y → s2.mem b = s.mem b) := by
   constructor
-  · obtain ⟨r, s1, e1, l1, _, v1, f1⟩ := C03.call_out_of_place jk e h s x hx
-    exact ⟨r, s1, by simpa [call] using e1, l1, v1, f1⟩
-  · obtain ⟨s2, e2, v2, f2, _⟩ := C03.call_in_place jk' e h s x y hx hy
-    exact ⟨s2, by simpa [call] using e2, v2, fun hne => f2 x hx hne, f2⟩
+  · obtain ⟨r, s1, e1, _, _, v1, f1⟩ := C03.call_out_of_place jk e h s x hx
+    exact ⟨r, s1, by simpa [call] using e1, v1, f1⟩
+  · obtain ⟨s2, e2, v2, f2, _⟩ := C03.call_in_place hK jk' e h hfn s x y hx hy
+    exact ⟨s2, by simpa [call, hfn] using e2, v2, fun hne => f2 x hx hne, f2⟩
+
+/-- Functionals: `op(x)` returns the value and writes nothing; `op(x, out=…)` is rejected with
+`TypeError` before anything runs. -/
+theorem C03.call_functional {K : Type} [Add K] [Mul K] (jk : Nat → Vec K) (e : Op K)
+    (h : AllOK e) (hfn : e.fn = true) (s : St K) (x y : Nat) (hx : x < s.next) :
+    (∃ r s1, call jk e (.inDomain x) .none s = .ok r s1 ∧
+        s1.mem r = den e (s.mem x) ∧ ∀ b : Nat, b < s.next → s1.mem b = s.mem b) ∧
+    call jk e (.inDomain x) (.inRange y) s = .err .type s := by
+  constructor
+  · obtain ⟨r, s1, e1, _, _, v1, f1⟩ := C03.call_out_of_place jk e h s x hx
+    exact ⟨r, s1, by simpa [call] using e1, v1, f1⟩
+  · simp [call, hfn]
 
 /-- The previous content of `out` never influences the result: two stores that differ only
 in what `y` holds give the same final `y` (for `x` distinct from `y`). -/
-theorem C03.out_content_irrelevant {K : Type} [CommRing K] (jk jk' : Nat → Vec K) (e : Op K)
-    (h : AllOK e) (s : St K) (x y : Nat) (j : Vec K) (hx : x < s.next) (hy : y < s.next)
-    (hxy : x ≠ y) :
+theorem C03.out_content_irrelevant {K : Type} [Add K] [Mul K] [OfNat K 0] (hK : CommArith K)
+    (jk jk' : Nat → Vec K) (e : Op K)
+    (h : AllOK e) (hfn : e.fn = false) (s : St K) (x y : Nat) (j : Vec K) (hx : x < s.next)
+    (hy : y < s.next) (hxy : x ≠ y) :
     ∃ s1 s2, callI jk e x y s = .ok y s1 ∧ callI jk' e x y (s.write y j) = .ok y s2 ∧
       s1.mem y = s2.mem y := by
-  obtain ⟨s1, e1, v1, _, _⟩ := C03.call_in_place jk e h s x y hx hy
-  obtain ⟨s2, e2, v2, _, _⟩ := C03.call_in_place jk' e h (s.write y j) x y hx hy
+  obtain ⟨s1, e1, v1, _, _⟩ := C03.call_in_place hK jk e h hfn s x y hx hy
+  obtain ⟨s2, e2, v2, _, _⟩ := C03.call_in_place hK jk' e h hfn (s.write y j) x y hx hy
   refine ⟨s1, s2, e1, e2, ?_⟩
   rw [v1, v2, write_mem_other _ _ _ _ hxy]
 
 /-- An `x` that is not a domain element but can be cast (`domain.element(x)` succeeds) is
 copied into a new domain element first; the results are those of the cast value. -/
-theorem C03.call_casts_input {K : Type} [CommRing K] (jk : Nat → Vec K) (e : Op K)
-    (h : AllOK e) (s : St K) (v : Vec K) (y : Nat) (hy : y < s.next) :
-    (∃ r s1, call jk false e (.castable v) .none s = .ok r s1 ∧ s1.mem r = den e v ∧
+theorem C03.call_casts_input {K : Type} [Add K] [Mul K] [OfNat K 0] (hK : CommArith K)
+    (jk : Nat → Vec K) (e : Op K)
+    (h : AllOK e) (hfn : e.fn = false) (s : St K) (v : Vec K) (y : Nat) (hy : y < s.next) :
+    (∃ r s1, call jk e (.castable v) .none s = .ok r s1 ∧ s1.mem r = den e v ∧
         ∀ b : Nat, b < s.next → s1.mem b = s.mem b) ∧
-    (∃ s2, call jk false e (.castable v) (.inRange y) s = .ok y s2 ∧ s2.mem y = den e v ∧
+    (∃ s2, call jk e (.castable v) (.inRange y) s = .ok y s2 ∧ s2.mem y = den e v ∧
         ∀ b : Nat, b < s.next → b ≠ y → s2.mem b = s.mem b) := by
   obtain ⟨s0, ea, hn0, hv0, hf0⟩ := alloc_spec s v
   constructor
-  · obtain ⟨r, s1, e1, l1, _, v1, f1⟩ := C03.call_out_of_place jk e h s0 s.next (by omega)
+  · obtain ⟨r, s1, e1, _, _, v1, f1⟩ := C03.call_out_of_place jk e h s0 s.next (by omega)
     refine ⟨r, s1, by simpa [call, ea] using e1, by rw [v1, hv0], ?_⟩
     intro b hb; rw [f1 b (by omega), hf0 b (by omega)]
-  · obtain ⟨s2, e2, v2, f2, _⟩ := C03.call_in_place jk e h s0 s.next y (by omega) (by omega)
-    refine ⟨s2, by simpa [call, ea] using e2, by rw [v2, hv0], ?_⟩
+  · obtain ⟨s2, e2, v2, f2, _⟩ := C03.call_in_place hK jk e h hfn s0 s.next y (by omega) (by omega)
+    refine ⟨s2, by simpa [call, ea, hfn] using e2, by rw [v2, hv0], ?_⟩
     intro b hb hne; rw [f2 b (by omega) hne, hf0 b (by omega)]
 
 /-- Malformed input is rejected before any existing object is written, with the error kinds
@@ -422,102 +450,511 @@ and the priority of `Operator.__call__`: a non-castable `x` gives `OpDomainError
 `OpRangeError`; otherwise `out` together with a functional gives `TypeError`.  These hold for
 ALL trees and leaves (no contract needed): the error branches are explicit constructors taken
 before any body runs. -/
-theorem C03.call_rejects {K : Type} [Add K] [Mul K] (jk : Nat → Vec K) (fn : Bool) (e : Op K)
+theorem C03.call_rejects {K : Type} [Add K] [Mul K] (jk : Nat → Vec K) (e : Op K)
     (s : St K) :
-    (∀ o, call jk fn e .bad o s = .err .domain s) ∧
-    (∀ x, call jk fn e (.inDomain x) .foreign s = .err .range s) ∧
-    (∀ v, ∃ s', call jk fn e (.castable v) .foreign s = .err .range s' ∧
+    (∀ o, call jk e .bad o s = .err .domain s) ∧
+    (∀ x, call jk e (.inDomain x) .foreign s = .err .range s) ∧
+    (∀ v, ∃ s', call jk e (.castable v) .foreign s = .err .range s' ∧
         ∀ b : Nat, b < s.next → s'.mem b = s.mem b) ∧
-    (∀ x y, call jk true e (.inDomain x) (.inRange y) s = .err .type s) := by
-  refine ⟨fun o => rfl, fun x => rfl, fun v => ?_, fun x y => rfl⟩
+    (e.fn = true → ∀ x y, call jk e (.inDomain x) (.inRange y) s = .err .type s) := by
+  refine ⟨fun o => rfl, fun x => rfl, fun v => ?_, fun hfn x y => by simp [call, hfn]⟩
   obtain ⟨s0, ea, hn0, hv0, hf0⟩ := alloc_spec s v
   exact ⟨s0, by simp [call, ea], fun b hb => hf0 b (by omega)⟩
 
-/-- Counterexample (1), on the model: a leaf whose out-of-place body returns its argument
-(as `RealPart` does on a real space) violates the leaf contract, and `OperatorVectorSum` over
-it returns `x` itself after adding the vector INTO `x`. -/
-theorem C03.vector_sum_writes_input {K : Type} [Add K] [Mul K] (jk : Nat → Vec K) (v : Vec K)
-    (s : St K) (x : Nat) :
-    callO jk (.vecsum (.leaf retInputLeaf) v) x s =
-      .ok x (s.write x (fun i => s.mem x i + v i)) ∧ ¬ OopOK (retInputLeaf (K := K)) := by
-  constructor
-  · simp [callO, retInputLeaf]
-  · intro h
-    have := (h ⟨s.mem, 1⟩ 0 (by simp)).1
-    simp [retInputLeaf] at this
+/-- A leaf that returns its own argument (`RealPart` on a real space) satisfies the leaf
+contract — with the repaired `OperatorVectorSum` no expression class writes into the result
+of an inner out-of-place call, so freshness is not needed. -/
+theorem C03.ret_input_leaf_ok {K : Type} : LeafOK (retInputLeaf (K := K)) := by
+  refine ⟨fun _ s x hx => ?_, fun h => absurd rfl h⟩
+  simp only [retInputLeaf]
+  exact ⟨hx, le_refl _, by simp, fun _ _ => trivial⟩
 
-/-- Counterexample (2), on the model of the code as it is: `ProximalL2._call` at `x = 0`
-takes the `out.set_zero()` branch, which is `lincomb(0, out, 0, out)`; with a NaN in `out`
-the result is NaN although `P(x) = 0` (scalars with an absorbing NaN). -/
-theorem C03.set_zero_keeps_nan :
-    (run (fun _ _ => none) (prog nanFns nanPar (.l2 false)) 0 1
-        (fun b _ => if b = 1 then none else some 0)).mem 1 0 = none ∧
-    (run (fun _ _ => none) (prog nanFns nanPar (.l2 false)) 0 0
-        (fun _ _ => some 0)).mem 0 0 = some 0 := by
-  constructor <;>
-  simp [run, exec, prog, l2Step, env0, Env.set, St.write, srcVals, cst, nanFns, nanPar] <;>
-  decide
+/-- Sensitivity (the defect repaired by /repo e5d6c3c): the OLD out-of-place body of
+`OperatorVectorSum`, `out = operator(x); out += vector`, over a leaf that returns its argument
+writes the vector INTO `x`. -/
+theorem C03.old_vector_sum_writes_input {K : Type} [Add K] [Mul K] (jk : Nat → Vec K)
+    (v : Vec K) (s : St K) (x : Nat) :
+    ((callO jk (.leaf retInputLeaf) x s).bind fun r s1 =>
+        .ok r (s1.write r (fun i => s1.mem r i + v i))) =
+      .ok x (s.write x (fun i => s.mem x i + v i)) := by
+  simp [callO, retInputLeaf]
+
+/-- Sensitivity (the defect repaired by /repo ab9b331): handing `out` to a functional is a
+`TypeError`; this is why `OperatorComp` must evaluate a functional right factor out-of-place. -/
+theorem C03.functional_rejects_out {K : Type} [Add K] [Mul K] (jk : Nat → Vec K) (l : Leaf K)
+    (hl : l.fn = true) (x y : Nat) (s : St K) : callI jk (.leaf l) x y s = .err .type s := by
+  simp [callI, hl]
 
 /-- The modelled `default_ops` leaves (`ScalingOperator`/`IdentityOperator`,
-`ConstantOperator`, `MultiplyOperator`, `PowerOperator`, `ZeroOperator`, and the
-out-of-place-only `ComplexModulusSquared`) satisfy the leaf contract, aliased case included. -/
-theorem C03.scale_leaf_ok {K : Type} [CommRing K] (c : K) : LeafOK (scalingLeaf c) := by
+`ConstantOperator`, `MultiplyOperator`, `PowerOperator`, `ZeroOperator`, the
+out-of-place-only `ComplexModulusSquared`, functionals such as `InnerProductOperator`)
+satisfy the leaf contract, aliased case included. -/
+theorem C03.scale_leaf_ok {K : Type} [Add K] [Mul K] [OfNat K 0] (c : K) :
+    LeafOK (scalingLeaf c) := by
   refine ⟨fun _ s x hx => ?_, fun _ s x y hx hy => ?_⟩
   · obtain ⟨s0, ea, hn0, hv0, hf0⟩ := alloc_spec s (fun i => c * s.mem x i)
     simp only [scalingLeaf, ea]
-    exact ⟨le_refl _, by omega, hv0, fun b hb => hf0 b (by omega)⟩
+    exact ⟨by omega, by omega, hv0, fun b hb => hf0 b (by omega)⟩
   · simp only [scalingLeaf]
     exact ⟨by simp, by simp, fun b _ hne => write_mem_other _ _ _ _ hne, by simp⟩
 
-theorem C03.default_leaves_ok {K : Type} [CommRing K] (v : Vec K) (pw : K → K) :
+theorem C03.default_leaves_ok {K : Type} [Add K] [Mul K] [OfNat K 0] (hK : CommArith K)
+    (v : Vec K) (pw : K → K) (f : Vec K → K) :
     LeafOK (constLeaf v) ∧ LeafOK (multLeaf v) ∧ LeafOK (powLeaf pw) ∧
-    LeafOK (zeroLeaf (K := K)) ∧ LeafOK (modSqLeaf (K := K)) := by
+    LeafOK (zeroLeaf (K := K)) ∧ LeafOK (modSqLeaf (K := K)) ∧ LeafOK (funcLeaf f) := by
   refine ⟨⟨fun _ s x hx => ?_, fun _ s x y hx hy => ?_⟩, ⟨fun _ s x hx => ?_, fun _ s x y hx hy => ?_⟩,
     ⟨fun _ s x hx => ?_, fun _ s x y hx hy => ?_⟩, ⟨fun _ s x hx => ?_, fun _ s x y hx hy => ?_⟩,
-    ⟨fun _ s x hx => ?_, fun h => absurd rfl h⟩⟩
+    ⟨fun _ s x hx => ?_, fun h => absurd rfl h⟩, ⟨fun _ s x hx => ?_, fun h => absurd rfl h⟩⟩
   · obtain ⟨s0, ea, hn0, hv0, hf0⟩ := alloc_spec s v
     simp only [constLeaf, ea]
-    exact ⟨le_refl _, by omega, hv0, fun b hb => hf0 b (by omega)⟩
+    exact ⟨by omega, by omega, hv0, fun b hb => hf0 b (by omega)⟩
   · simp only [constLeaf]
     exact ⟨by simp, by simp, fun b _ hne => write_mem_other _ _ _ _ hne, by simp⟩
   · obtain ⟨s0, ea, hn0, hv0, hf0⟩ := alloc_spec s (fun i => s.mem x i * v i)
     simp only [multLeaf, ea]
-    exact ⟨le_refl _, by omega, hv0, fun b hb => hf0 b (by omega)⟩
+    exact ⟨by omega, by omega, hv0, fun b hb => hf0 b (by omega)⟩
   · obtain ⟨s0, ea, hn0, hv0, hf0⟩ := alloc_spec s (fun i => v i * s.mem x i)
     simp only [multLeaf, ea]
     refine ⟨by simp, ?_, ?_, by simp only [write_next]; omega⟩
-    · rw [write_mem_same, hv0]; funext i; ring
+    · rw [write_mem_same, hv0]; funext i; exact hK.mul_comm _ _
     · intro b hb hne; rw [write_mem_other _ _ _ _ hne, hf0 b (by omega)]
   · obtain ⟨s0, ea, hn0, hv0, hf0⟩ := alloc_spec s (fun i => pw (s.mem x i))
     simp only [powLeaf, ea]
-    exact ⟨le_refl _, by omega, hv0, fun b hb => hf0 b (by omega)⟩
+    exact ⟨by omega, by omega, hv0, fun b hb => hf0 b (by omega)⟩
   · simp only [powLeaf]
     refine ⟨by simp, by simp, ?_, by simp⟩
     intro b _ hne; rw [write_mem_other _ _ _ _ hne, write_mem_other _ _ _ _ hne]
   · obtain ⟨s0, ea, hn0, hv0, hf0⟩ := alloc_spec s (fun i => 0 * s.mem x i)
     simp only [zeroLeaf, ea]
-    exact ⟨le_refl _, by omega, hv0, fun b hb => hf0 b (by omega)⟩
+    exact ⟨by omega, by omega, hv0, fun b hb => hf0 b (by omega)⟩
   · simp only [zeroLeaf]
     exact ⟨by simp, by simp, fun b _ hne => write_mem_other _ _ _ _ hne, by simp⟩
   · obtain ⟨s0, ea, hn0, hv0, hf0⟩ := alloc_spec s (fun i => s.mem x i * s.mem x i + 0 * 0)
     simp only [modSqLeaf, ea]
-    exact ⟨le_refl _, by omega, hv0, fun b hb => hf0 b (by omega)⟩
+    exact ⟨by omega, by omega, hv0, fun b hb => hf0 b (by omega)⟩
+  · obtain ⟨s0, ea, hn0, hv0, hf0⟩ := alloc_spec s (fun _ => f (s.mem x))
+    simp only [funcLeaf, ea]
+    exact ⟨by omega, by omega, hv0, fun b hb => hf0 b (by omega)⟩
 
 theorem C03.oop_leaf_ok {K : Type} (f : Vec K → Vec K) : LeafOK (oopLeaf f) := by
   refine ⟨fun _ s x hx => ?_, fun h => absurd rfl h⟩
   obtain ⟨s0, ea, hn0, hv0, hf0⟩ := alloc_spec s (f (s.mem x))
   simp only [oopLeaf, ea]
-  exact ⟨le_refl _, by omega, hv0, fun b hb => hf0 b (by omega)⟩
+  exact ⟨by omega, by omega, hv0, fun b hb => hf0 b (by omega)⟩
 
 /-- Non-vacuity: a depth-3 tree mixing a dual-use leaf, an out-of-place-only leaf (default
-in-place bridge, raw result wrapped) and four expression classes satisfies the hypotheses of
-`call_protocol_partial`; its aliased in-place call on x = (5, …) yields 2*(3*5) + (5*5 + 7) = 62. -/
-example : let e : Op Int := .sum (.comp (.leaf (scalingLeaf 2)) (.leaf (scalingLeaf 3)))
-                            (.vecsum (.leaf (oopLeaf fun v i => v i * v i)) (fun _ => 7))
-    AllOK e ∧ ∃ s', callI (fun _ _ => 99) e 0 0 ⟨fun _ _ => 5, 1⟩ = .ok 0 s' ∧ s'.mem 0 0 = 62 := by
+in-place bridge, raw result wrapped), a leaf that returns its own argument under an
+`OperatorVectorSum`, a functional under `FunctionalLeftVectorMult` and as right factor of an
+`OperatorComp` satisfies the hypotheses of `call_protocol`; its aliased in-place call on
+x = (5, …) yields 2*(3*5) + (5*5 + 7) + (5 + 1) + 2*5 + 3*5 = 93. -/
+example : let e : Op Int :=
+      .sum (.sum (.sum (.comp (.leaf (scalingLeaf 2)) (.leaf (scalingLeaf 3)))
+                       (.vecsum (.leaf (oopLeaf fun v i => v i * v i)) (fun _ => 7)))
+                 (.sum (.vecsum (.leaf retInputLeaf) (fun _ => 1))
+                       (.flvm (.leaf (funcLeaf fun v => v 0)) (fun _ => 2))))
+           (.comp (.leaf (scalingLeaf 3)) (.comp (.leaf retInputLeaf) (.leaf retInputLeaf)))
+    AllOK e ∧ e.fn = false ∧
+      ∃ s', callI (fun _ _ => 99) e 0 0 ⟨fun _ _ => 5, 1⟩ = .ok 0 s' ∧ s'.mem 0 0 = 93 := by
   intro e
-  have hok : AllOK e := ⟨⟨C03.scale_leaf_ok 2, C03.scale_leaf_ok 3⟩, C03.oop_leaf_ok _⟩
-  refine ⟨hok, ?_⟩
-  obtain ⟨s', e1, v1, _, _⟩ := C03.call_in_place (fun _ _ => 99) e hok ⟨fun _ _ => 5, 1⟩ 0 0
+  have hK := CommArith.ofCommRing Int
+  have hd := C03.default_leaves_ok hK (fun _ => (0 : Int)) id (fun v => v 0)
+  have hok : AllOK e := by
+    have h1 := C03.scale_leaf_ok (2 : Int)
+    have h2 := C03.scale_leaf_ok (3 : Int)
+    have h3 := C03.oop_leaf_ok (fun (v : Vec Int) i => v i * v i)
+    have h4 := C03.ret_input_leaf_ok (K := Int)
+    have h5 := hd.2.2.2.2.2
+    simp only [e, AllOK, Op.fn]
+    exact ⟨⟨⟨⟨h1, h2⟩, ⟨h3, by trivial⟩, by trivial⟩, ⟨⟨h4, by trivial⟩, h5, by trivial⟩,
+      by trivial⟩, ⟨h2, h4, h4⟩, by trivial⟩
+  refine ⟨hok, rfl, ?_⟩
+  obtain ⟨s', e1, v1, _, _⟩ := C03.call_in_place hK (fun _ _ => 99) e hok rfl ⟨fun _ _ => 5, 1⟩ 0 0
     (by simp) (by simp)
-  exact ⟨s', e1, by rw [v1]; simp [e, den, scalingLeaf, oopLeaf]⟩
+  exact ⟨s', e1, by rw [v1]; simp [e, den, scalingLeaf, oopLeaf, retInputLeaf, funcLeaf]⟩
+
+/-! ### Product-space classes -/
+
+namespace OdlModel.C03
+open OdlModel.Prox OdlModel.Call
+
+/-- Hypotheses on the blocks of a `ProductSpaceOperator` with `m` rows and `n` columns. -/
+def EntriesOK {K : Type} (m n : Nat) (inPlace : Bool) (entries : List (Entry K)) : Prop :=
+  ∀ e ∈ entries, AllOK e.op ∧ (inPlace = true → e.op.fn = false) ∧ e.row < m ∧ e.col < n
+
+/-- Option-valued accumulator of the in-place loop: `none` = row not yet evaluated. -/
+def stepAcc {K : Type} [Add K] [Mul K] (xv : Nat → Vec K) (e : Entry K)
+    (acc : Nat → Option (Vec K)) : Nat → Option (Vec K) :=
+  fun i => if e.row = i then
+      some (match acc i with
+            | none => den e.op (xv e.col)
+            | some v => fun k => v k + den e.op (xv e.col) k)
+    else acc i
+
+def finalAcc {K : Type} [Add K] [Mul K] (xv : Nat → Vec K) :
+    List (Entry K) → (Nat → Option (Vec K)) → Nat → Option (Vec K)
+  | [], acc => acc
+  | e :: rest, acc => finalAcc xv rest (stepAcc xv e acc)
+
+end OdlModel.C03
+
+/-- Out-of-place loop of `ProductSpaceOperator._call`: with the output components `o` (distinct
+objects, distinct from the input components) holding `acc`, the loop ends with row `i` holding
+`acc_i + Σ ⟦op⟧(x[col])` over the blocks of row `i` in order, and writes nothing else. -/
+theorem C03.pso_loop_out_of_place {K : Type} [Add K] [Mul K] [OfNat K 0] (jk : Nat → Vec K)
+    (m n : Nat) (x o : Nat → Nat) (xv : Nat → Vec K) (entries : List (Entry K))
+    (hent : EntriesOK m n false entries)
+    (hoinj : ∀ i i' : Nat, i < m → i' < m → o i = o i' → i = i')
+    (hodis : ∀ i j : Nat, i < m → j < n → o i ≠ x j) :
+    ∀ (s : St K) (acc : Nat → Vec K),
+      (∀ j : Nat, j < n → x j < s.next) → (∀ i : Nat, i < m → o i < s.next) →
+      (∀ j : Nat, j < n → s.mem (x j) = xv j) → (∀ i : Nat, i < m → s.mem (o i) = acc i) →
+      ∃ s', psoLoopO jk x o entries s = .ok [] s' ∧
+        (∀ i : Nat, i < m → s'.mem (o i) = rowDen xv entries i (acc i)) ∧
+        (∀ b : Nat, b < s.next → (∀ i : Nat, i < m → b ≠ o i) → s'.mem b = s.mem b) ∧
+        s.next ≤ s'.next := by
+  induction entries with
+  | nil =>
+    intro s acc _ _ _ hinv
+    exact ⟨s, rfl, fun i hi => by simp [rowDen, hinv i hi], fun _ _ _ => rfl, le_refl _⟩
+  | cons e rest ih =>
+    intro s acc hx ho hxv hinv
+    obtain ⟨hop, _, hr, hc⟩ := hent e (by simp)
+    obtain ⟨rb, s1, e1, u1, n1, v1, f1⟩ := C03.call_out_of_place jk e.op hop s (x e.col) (hx _ hc)
+    simp only [psoLoopO, e1]
+    have hent' : EntriesOK m n false rest := fun e' he' => hent e' (by simp [he'])
+    obtain ⟨s', es, vs, fs, ns⟩ := ih hent'
+      (s1.write (o e.row) (fun k => s1.mem (o e.row) k + s1.mem rb k))
+      (fun i => if e.row = i then (fun k => acc i k + den e.op (xv e.col) k) else acc i)
+      (fun j hj => by simp only [write_next]; have := hx j hj; omega)
+      (fun i hi => by simp only [write_next]; have := ho i hi; omega)
+      (fun j hj => by
+        rw [write_mem_other _ _ _ _ (Ne.symm (hodis _ _ hr hj)), f1 _ (hx j hj), hxv j hj])
+      (fun i hi => by
+        by_cases hri : e.row = i
+        · subst hri
+          simp only [write_mem_same, if_true]
+          funext k
+          rw [f1 _ (ho _ hr), hinv _ hr, v1, hxv _ hc]
+        · have hne : o i ≠ o e.row := fun h => hri (hoinj _ _ hi hr h).symm
+          simp only [hri, if_false]
+          rw [write_mem_other _ _ _ _ hne, f1 _ (ho i hi), hinv i hi])
+    refine ⟨s', es, ?_, ?_, ?_⟩
+    · intro i hi
+      rw [vs i hi]
+      simp only [rowDen]
+    · intro b hb hnb
+      rw [fs b (by simp only [write_next]; omega) hnb,
+        write_mem_other _ _ _ _ (hnb _ hr), f1 b hb]
+    · simp only [write_next] at ns; omega
+
+/-- `ProductSpaceOperator._call(x)` (hence `BroadcastOperator`, `ReductionOperator`,
+`DiagonalOperator`, which delegate to one): for every block matrix whose blocks are well-formed
+expression trees (any sparsity pattern, several blocks per row, empty rows), every store and
+every input tuple `x`: the result is a tuple of NEW objects, component `i` holding
+`Σ_j ⟦op_ij⟧(x_j)`; no existing object is written. -/
+theorem C03.pso_out_of_place {K : Type} [Add K] [Mul K] [OfNat K 0] (jk : Nat → Vec K)
+    (m n : Nat) (x : Nat → Nat) (entries : List (Entry K)) (hent : EntriesOK m n false entries)
+    (s : St K) (hx : ∀ j : Nat, j < n → x j < s.next) :
+    ∃ s', psoO jk m entries x s = .ok [] s' ∧
+      (∀ i : Nat, i < m → s'.mem (s.next + i) = denPso entries (fun j => s.mem (x j)) i) ∧
+      (∀ b : Nat, b < s.next → s'.mem b = s.mem b) := by
+  obtain ⟨s', es, vs, fs, _⟩ := C03.pso_loop_out_of_place jk m n x (fun i => s.next + i)
+    (fun j => s.mem (x j)) entries hent
+    (fun i i' _ _ h => by omega)
+    (fun i j _ hj h => by have := hx j hj; omega)
+    (allocZeros s m) (fun _ _ => 0)
+    (fun j hj => by have := hx j hj; simp only [allocZeros]; omega)
+    (fun i hi => by simp only [allocZeros]; omega)
+    (fun j hj => by
+      have := hx j hj
+      simp only [allocZeros]
+      rw [if_neg (by omega)])
+    (fun i hi => by
+      simp only [allocZeros]
+      rw [if_pos (by omega)])
+  refine ⟨s', es, fun i hi => vs i hi, ?_⟩
+  intro b hb
+  rw [fs b (by simp only [allocZeros]; omega) (fun i _ => by omega)]
+  simp only [allocZeros]
+  rw [if_neg (by omega)]
+
+/-- In-place loop of `ProductSpaceOperator._call` with its `has_evaluated_row` flags. Invariant:
+`done` is exactly the set of rows whose accumulator is `some v`, and those rows hold `v`. -/
+theorem C03.pso_loop_in_place {K : Type} [Add K] [Mul K] [OfNat K 0] (hK : CommArith K)
+    (jk : Nat → Vec K)
+    (m n : Nat) (x y : Nat → Nat) (xv : Nat → Vec K) (entries : List (Entry K))
+    (hent : EntriesOK m n true entries)
+    (hyinj : ∀ i i' : Nat, i < m → i' < m → y i = y i' → i = i')
+    (hdis : ∀ i j : Nat, i < m → j < n → y i ≠ x j) :
+    ∀ (s : St K) (done : List Nat) (acc : Nat → Option (Vec K)),
+      (∀ j : Nat, j < n → x j < s.next) → (∀ i : Nat, i < m → y i < s.next) →
+      (∀ j : Nat, j < n → s.mem (x j) = xv j) →
+      (∀ i : Nat, i < m → (i ∈ done ↔ (acc i).isSome = true) ∧
+          ∀ v, acc i = some v → s.mem (y i) = v) →
+      ∃ done' s', psoLoopI jk x y entries done s = .ok done' s' ∧
+        (∀ i : Nat, i < m → (i ∈ done' ↔ (finalAcc xv entries acc i).isSome = true) ∧
+            ∀ v, finalAcc xv entries acc i = some v → s'.mem (y i) = v) ∧
+        (∀ b : Nat, b < s.next → (∀ i : Nat, i < m → b ≠ y i) → s'.mem b = s.mem b) ∧
+        s.next ≤ s'.next := by
+  induction entries with
+  | nil =>
+    intro s done acc _ _ _ hinv
+    exact ⟨done, s, rfl, hinv, fun _ _ _ => rfl, le_refl _⟩
+  | cons e rest ih =>
+    intro s done acc hx hy hxv hinv
+    obtain ⟨hop, hfn, hr, hc⟩ := hent e (by simp)
+    have hent' : EntriesOK m n true rest := fun e' he' => hent e' (by simp [he'])
+    simp only [psoLoopI, finalAcc]
+    by_cases hd : e.row ∈ done
+    · -- row already evaluated: out[i] += op(x[j])
+      obtain ⟨rb, s1, e1, u1, n1, v1, f1⟩ :=
+        C03.call_out_of_place jk e.op hop s (x e.col) (hx _ hc)
+      simp only [hd, if_true, e1]
+      obtain ⟨v0, hv0⟩ : ∃ v0, acc e.row = some v0 :=
+        Option.isSome_iff_exists.mp ((hinv _ hr).1.mp hd)
+      obtain ⟨done', s', es, vs, fs, ns⟩ := ih hent'
+        (s1.write (y e.row) (fun k => s1.mem (y e.row) k + s1.mem rb k)) done (stepAcc xv e acc)
+        (fun j hj => by simp only [write_next]; have := hx j hj; omega)
+        (fun i hi => by simp only [write_next]; have := hy i hi; omega)
+        (fun j hj => by
+          rw [write_mem_other _ _ _ _ (Ne.symm (hdis _ _ hr hj)), f1 _ (hx j hj), hxv j hj])
+        (fun i hi => by
+          by_cases hri : e.row = i
+          · subst hri
+            refine ⟨by simp [stepAcc, hd], ?_⟩
+            intro v hv
+            simp only [stepAcc, if_true, hv0, Option.some.injEq] at hv
+            subst hv
+            simp only [write_mem_same]
+            funext k
+            rw [f1 _ (hy _ hr), (hinv _ hr).2 v0 hv0, v1, hxv _ hc]
+          · have hne : y i ≠ y e.row := fun h => hri (hyinj _ _ hi hr h).symm
+            simp only [stepAcc, hri, if_false]
+            refine ⟨(hinv i hi).1, fun v hv => ?_⟩
+            rw [write_mem_other _ _ _ _ hne, f1 _ (hy i hi)]
+            exact (hinv i hi).2 v hv)
+      refine ⟨done', s', es, vs, ?_, ?_⟩
+      · intro b hb hnb
+        rw [fs b (by simp only [write_next]; omega) hnb,
+          write_mem_other _ _ _ _ (hnb _ hr), f1 b hb]
+      · simp only [write_next] at ns; omega
+    · -- first block of this row: op(x[j], out=out[i])
+      obtain ⟨s1, e1, v1, f1, n1⟩ := C03.call_in_place hK jk e.op hop (hfn rfl) s (x e.col)
+        (y e.row) (hx _ hc) (hy _ hr)
+      simp only [hd, if_false, e1]
+      have hnone : acc e.row = none := by
+        have := (hinv _ hr).1
+        cases hacc : acc e.row with
+        | none => rfl
+        | some v => exact absurd (this.mpr (by simp [hacc])) hd
+      obtain ⟨done', s', es, vs, fs, ns⟩ := ih hent' s1 (e.row :: done) (stepAcc xv e acc)
+        (fun j hj => by have := hx j hj; omega)
+        (fun i hi => by have := hy i hi; omega)
+        (fun j hj => by
+          rw [f1 _ (hx j hj) (Ne.symm (hdis _ _ hr hj)), hxv j hj])
+        (fun i hi => by
+          by_cases hri : e.row = i
+          · subst hri
+            refine ⟨by simp [stepAcc], ?_⟩
+            intro v hv
+            simp only [stepAcc, if_true, hnone, Option.some.injEq] at hv
+            subst hv
+            rw [v1, hxv _ hc]
+          · have hne : y i ≠ y e.row := fun h => hri (hyinj _ _ hi hr h).symm
+            simp only [stepAcc, hri, if_false]
+            refine ⟨?_, fun v hv => ?_⟩
+            · rw [← (hinv i hi).1]
+              simp [List.mem_cons, Ne.symm hri]
+            · rw [f1 _ (hy i hi) hne]
+              exact (hinv i hi).2 v hv)
+      refine ⟨done', s', es, vs, ?_, by omega⟩
+      intro b hb hnb
+      rw [fs b (by omega) hnb, f1 b hb (hnb _ hr)]
+
+/-- The accumulator of the in-place loop (first block assigns, later blocks add, missing rows
+are zeroed) and the one of the out-of-place loop (start from zero, always add) agree. -/
+theorem C03.acc_agree {K : Type} [Add K] [Mul K] [OfNat K 0] (hK : CommArith K)
+    (xv : Nat → Vec K) (entries : List (Entry K)) (i : Nat) :
+    ∀ (acc : Nat → Option (Vec K)) (accp : Vec K),
+      (match acc i with | none => accp = fun _ => 0 | some v => accp = v) →
+      (match finalAcc xv entries acc i with
+        | none => rowDen xv entries i accp = fun _ => 0
+        | some v => rowDen xv entries i accp = v) := by
+  induction entries with
+  | nil => intro acc accp h; simpa [finalAcc, rowDen] using h
+  | cons e rest ih =>
+    intro acc accp h
+    simp only [finalAcc, rowDen]
+    apply ih
+    by_cases hri : e.row = i
+    · simp only [stepAcc, hri, if_true]
+      cases hacc : acc i with
+      | none =>
+        simp only [hacc] at h
+        subst h
+        funext k
+        exact hK.zero_add _
+      | some v =>
+        simp only [hacc] at h
+        subst h
+        rfl
+    · simpa [stepAcc, hri] using h
+
+/-- `ProductSpaceOperator._call(x, out)` (hence `BroadcastOperator`, `ReductionOperator`,
+`DiagonalOperator`): for every block matrix whose blocks are well-formed non-functional
+expression trees, every store, every input tuple `x` and every output tuple `y` of distinct
+objects disjoint from `x` — whatever they hold, NaN/inf included: afterwards component `i` of
+`y` holds exactly the value `Σ_j ⟦op_ij⟧(x_j)` that the out-of-place call puts into its new
+component `i` (rows without a block are zero); no other existing object — in particular no
+component of `x` — is written. -/
+theorem C03.pso_in_place {K : Type} [Add K] [Mul K] [OfNat K 0] (hK : CommArith K)
+    (jk : Nat → Vec K) (m n : Nat) (x y : Nat → Nat) (entries : List (Entry K))
+    (hent : EntriesOK m n true entries) (s : St K)
+    (hx : ∀ j : Nat, j < n → x j < s.next) (hy : ∀ i : Nat, i < m → y i < s.next)
+    (hyinj : ∀ i i' : Nat, i < m → i' < m → y i = y i' → i = i')
+    (hdis : ∀ i j : Nat, i < m → j < n → y i ≠ x j) :
+    ∃ done s', psoI jk m entries x y s = .ok done s' ∧
+      (∀ i : Nat, i < m → s'.mem (y i) = denPso entries (fun j => s.mem (x j)) i) ∧
+      (∀ b : Nat, b < s.next → (∀ i : Nat, i < m → b ≠ y i) → s'.mem b = s.mem b) := by
+  obtain ⟨done, s1, es, vs, fs, _⟩ := C03.pso_loop_in_place hK jk m n x y
+    (fun j => s.mem (x j)) entries hent hyinj hdis s [] (fun _ => none) hx hy
+    (fun _ _ => rfl) (fun i _ => ⟨by simp, fun v hv => by simp at hv⟩)
+  refine ⟨done, zeroRows y m done s1, by simp only [psoI, es], ?_, ?_⟩
+  · intro i hi
+    have hag := C03.acc_agree hK (fun j => s.mem (x j)) entries i (fun _ => none) (fun _ => 0) rfl
+    cases hfa : finalAcc (fun j => s.mem (x j)) entries (fun _ => none) i with
+    | none =>
+      simp only [hfa] at hag
+      have hnd : i ∉ done := fun hmem => by
+        have := (vs i hi).1.mp hmem
+        simp [hfa] at this
+      simp only [zeroRows, denPso]
+      rw [if_pos ⟨i, hi, hnd, rfl⟩, hag]
+    | some v =>
+      simp only [hfa] at hag
+      have hd : i ∈ done := (vs i hi).1.mpr (by simp [hfa])
+      simp only [zeroRows, denPso]
+      rw [if_neg, (vs i hi).2 v hfa, hag]
+      rintro ⟨i', hi', hnd', hyy⟩
+      exact hnd' (by rw [hyinj i' i hi' hi hyy]; exact hd)
+  · intro b hb hnb
+    simp only [zeroRows]
+    rw [if_neg, fs b hb hnb]
+    rintro ⟨i', hi', _, hyy⟩
+    exact hnb i' hi' hyy.symm
+
+/-- `ComponentProjection(space, i)`: `op(x)` returns a NEW object holding component `i`,
+`op(x, out=y)` leaves it in `y`; nothing else is written (in particular no component of `x`). -/
+theorem C03.component_projection {K : Type} [Add K] [Mul K] [OfNat K 0] (i : Nat)
+    (x : Nat → Nat) (y : Nat) (s : St K) :
+    (s.next ≤ (compProjO i x s).1 ∧ (compProjO i x s).2.mem (compProjO i x s).1 = s.mem (x i) ∧
+      ∀ b : Nat, b < s.next → (compProjO i x s).2.mem b = s.mem b) ∧
+    ((compProjI i x y s).mem y = s.mem (x i) ∧
+      ∀ b : Nat, b ≠ y → (compProjI i x y s).mem b = s.mem b) := by
+  obtain ⟨s0, ea, hn0, hv0, hf0⟩ := alloc_spec s (s.mem (x i))
+  refine ⟨?_, ?_⟩
+  · simp only [compProjO, ea]
+    exact ⟨le_refl _, hv0, fun b hb => hf0 b (by omega)⟩
+  · simp only [compProjI]
+    exact ⟨write_mem_same _ _ _, fun b hb => write_mem_other _ _ _ _ hb⟩
+
+/-- `ComponentProjectionAdjoint(space, i)`, `m` components: out-of-place the result is a tuple
+of NEW objects, component `i` holding `x`, the others zero; in-place the same values end up in
+the distinct objects `y` (whatever they held; `x` not among them); nothing else is written. -/
+theorem C03.component_projection_adjoint {K : Type} [Add K] [Mul K] [OfNat K 0] (m i : Nat)
+    (hi : i < m) (x : Nat) (y : Nat → Nat) (s : St K)
+    (hyinj : ∀ k k' : Nat, k < m → k' < m → y k = y k' → k = k')
+    (hdis : ∀ k : Nat, k < m → y k ≠ x) :
+    (∀ k : Nat, k < m → (compProjAdjO m i x s).mem (s.next + k) =
+        if k = i then s.mem x else fun _ => 0) ∧
+    (∀ b : Nat, b < s.next → (compProjAdjO m i x s).mem b = s.mem b) ∧
+    (∀ k : Nat, k < m → (compProjAdjI m i x y s).mem (y k) =
+        if k = i then s.mem x else fun _ => 0) ∧
+    (∀ b : Nat, (∀ k : Nat, k < m → b ≠ y k) → (compProjAdjI m i x y s).mem b = s.mem b) := by
+  refine ⟨?_, ?_, ?_, ?_⟩
+  · intro k hk
+    by_cases hki : k = i
+    · subst hki; simp [compProjAdjO]
+    · simp only [compProjAdjO, hki, if_false]
+      rw [write_mem_other _ _ _ _ (by omega)]
+      simp only [allocZeros]
+      rw [if_pos (by omega)]
+  · intro b hb
+    simp only [compProjAdjO]
+    rw [write_mem_other _ _ _ _ (by omega)]
+    simp only [allocZeros]
+    rw [if_neg (by omega)]
+  · intro k hk
+    have hxz : (zeroRows y m [] s).mem x = s.mem x := by
+      simp only [zeroRows]
+      rw [if_neg]
+      rintro ⟨k', hk', _, hyy⟩
+      exact hdis k' hk' hyy
+    by_cases hki : k = i
+    · subst hki; simp [compProjAdjI, hxz]
+    · have hne : y k ≠ y i := fun h => hki (hyinj _ _ hk hi h)
+      simp only [compProjAdjI, hki, if_false]
+      rw [write_mem_other _ _ _ _ hne]
+      simp only [zeroRows]
+      rw [if_pos ⟨k, hk, by simp, rfl⟩]
+  · intro b hb
+    simp only [compProjAdjI]
+    rw [write_mem_other _ _ _ _ (hb i hi)]
+    simp only [zeroRows]
+    rw [if_neg]
+    rintro ⟨k', hk', _, hyy⟩
+    exact hb k' hk' hyy.symm
+
+/-- Non-vacuity of the product-space theorems: a `BroadcastOperator`, a `ReductionOperator` and
+a `DiagonalOperator` over ℤ-valued trees satisfy `EntriesOK`; e.g. the reduction
+`x ↦ 2·x₀ + 3·x₁` evaluated in place on x = ((5,…),(7,…)) leaves 31 in `y`. -/
+example : EntriesOK (K := Int) 2 1 true (broadcastEntries [.leaf (scalingLeaf 2), .leaf (scalingLeaf 3)]) ∧
+    EntriesOK (K := Int) 2 2 true (diagonalEntries [.leaf (scalingLeaf 2), .leaf (scalingLeaf 3)]) ∧
+    EntriesOK (K := Int) 1 2 true (reductionEntries [.leaf (scalingLeaf 2), .leaf (scalingLeaf 3)]) ∧
+    ∃ done s', psoI (fun _ _ => 99) 1 (reductionEntries [.leaf (scalingLeaf 2), .leaf (scalingLeaf 3)])
+        (fun j => j) (fun _ => 2)
+        (⟨fun b _ => if b = 0 then 5 else if b = 1 then 7 else 1000, 3⟩ : St Int)
+        = .ok done s' ∧ s'.mem 2 0 = 31 := by
+  have h2 := C03.scale_leaf_ok (2 : Int)
+  have h3 := C03.scale_leaf_ok (3 : Int)
+  have hb : EntriesOK (K := Int) 2 1 true
+      (broadcastEntries [.leaf (scalingLeaf 2), .leaf (scalingLeaf 3)]) := by
+    intro e he
+    simp [broadcastEntries, List.range, List.range.loop] at he
+    rcases he with rfl | rfl
+    · exact ⟨h2, fun _ => rfl, by decide, by decide⟩
+    · exact ⟨h3, fun _ => rfl, by decide, by decide⟩
+  have hd : EntriesOK (K := Int) 2 2 true
+      (diagonalEntries [.leaf (scalingLeaf 2), .leaf (scalingLeaf 3)]) := by
+    intro e he
+    simp [diagonalEntries, List.range, List.range.loop] at he
+    rcases he with rfl | rfl
+    · exact ⟨h2, fun _ => rfl, by decide, by decide⟩
+    · exact ⟨h3, fun _ => rfl, by decide, by decide⟩
+  have hr : EntriesOK (K := Int) 1 2 true
+      (reductionEntries [.leaf (scalingLeaf 2), .leaf (scalingLeaf 3)]) := by
+    intro e he
+    simp [reductionEntries, List.range, List.range.loop] at he
+    rcases he with rfl | rfl
+    · exact ⟨h2, fun _ => rfl, by decide, by decide⟩
+    · exact ⟨h3, fun _ => rfl, by decide, by decide⟩
+  refine ⟨hb, hd, hr, ?_⟩
+  obtain ⟨done, s', es, vs, _⟩ := C03.pso_in_place (CommArith.ofCommRing Int) (fun _ _ => 99) 1 2
+    (fun j => j) (fun _ => 2) _ hr
+    (⟨fun b _ => if b = 0 then 5 else if b = 1 then 7 else 1000, 3⟩ : St Int)
+    (fun j hj => by simp; omega) (fun i _ => by simp) (fun i i' hi hi' _ => by omega)
+    (fun i j _ hj => by omega)
+  refine ⟨done, s', es, ?_⟩
+  have := congrFun (vs 0 (by omega)) 0
+  simpa [denPso, rowDen, reductionEntries, List.range, List.range.loop, den, scalingLeaf] using this
+
+/-- `MultiplyOperator` with a field domain (the left factor of an `OperatorComp` whose right
+factor is a functional) satisfies the leaf contract. -/
+theorem C03.scalar_mult_leaf_ok {K : Type} [Add K] [Mul K] [OfNat K 0] (v : Vec K) :
+    LeafOK (scalarMultLeaf v) := by
+  refine ⟨fun _ s x hx => ?_, fun _ s x y hx hy => ?_⟩
+  · obtain ⟨s0, ea, hn0, hv0, hf0⟩ := alloc_spec s (fun i => s.mem x 0 * v i)
+    simp only [scalarMultLeaf, ea]
+    exact ⟨by omega, by omega, hv0, fun b hb => hf0 b (by omega)⟩
+  · simp only [scalarMultLeaf]
+    exact ⟨by simp, by simp, fun b _ hne => write_mem_other _ _ _ _ hne, by simp⟩
